@@ -76,6 +76,54 @@ def ngetJudge (kind : String) (reloaded : Bool) (key : Nat) (refVal : Option (Na
         else if k = key ∧ low32 io = low32 o ∧ is = s then some "CompactSection.setOverflowEntry/stale-offset-high-byte"
         else some s!"{kind}.Get/wrong-value"
 
+/-! ### which high byte came back (5-byte offsets)
+
+The recorded defect `CompactSection.setOverflowEntry/stale-offset-high-byte` returns the latest lower
+four offset bytes and size together with an OLDER high byte OF THE SAME KEY (the overflow slot keeps
+the byte it was created with).  The property text asks for "the latest offset" of each key, so an
+offset whose high byte this key was NEVER stored with is a different failure (for instance the byte
+of a neighbouring entry): the refined judges below keep the recorded class only when the returned
+high byte occurs in the key's own history and name a class of their own otherwise.  They are what
+the driver runs; they accept whatever the unrefined judges accept (`refineStale_none`). -/
+
+def hiOf (o : Nat) : Nat := o / 4294967296
+
+def staleClass : String := "CompactSection.setOverflowEntry/stale-offset-high-byte"
+
+/-- the high bytes `k` was ever stored with (the reference keeps every binding, newest first) -/
+def Ref.his (r : Ref) (k : Nat) : List Nat := (r.filter (·.1 == k)).map fun b => hiOf b.2.1
+
+def refineStale (his : List Nat) (implOff : Nat) (other : String) : Option String → Option String
+  | none => none
+  | some c => if c == staleClass && !(his.contains (hiOf implOff)) then some other else some c
+
+theorem refineStale_none (his : List Nat) (implOff : Nat) (other : String) :
+    refineStale his implOff other none = none := rfl
+
+def setJudgeH (refOld : Option (Nat × Int)) (his : List Nat) (implOff : Nat) (implSize : Int) : Option String :=
+  refineStale his implOff "CompactMap.Set/old-offset-high-byte-never-stored-for-key" (setJudge refOld implOff implSize)
+
+def getJudgeH (key : Nat) (refVal : Option (Nat × Int)) (his : List Nat) (impl : Option (Nat × Nat × Int)) : Option String :=
+  refineStale his ((impl.map (·.2.1)).getD 0) "CompactMap.Get/offset-high-byte-never-stored-for-key" (getJudge key refVal impl)
+
+def ngetJudgeH (kind : String) (reloaded : Bool) (key : Nat) (refVal : Option (Nat × Int)) (his : List Nat)
+    (impl : Option (Nat × Nat × Int)) : Option String :=
+  refineStale his ((impl.map (·.2.1)).getD 0) s!"{kind}.Get/offset-high-byte-never-stored-for-key"
+    (ngetJudge kind reloaded key refVal impl)
+
+/-- `AscendingVisit`: some listed entry carries a high byte its key was never stored with -/
+def visitJudgeH (his : Nat → List Nat) (want impl : List (Nat × Nat × Int)) : Option String :=
+  match visitJudge want impl with
+  | none => none
+  | some c =>
+    if c == staleClass && (want.zip impl).any (fun wi => wi.1.2.1 != wi.2.2.1 && !((his wi.1.1).contains (hiOf wi.2.2.1))) then
+      some "CompactMap.AscendingVisit/offset-high-byte-never-stored-for-key"
+    else some c
+
+theorem visitJudgeH_none (his : Nat → List Nat) (want impl : List (Nat × Nat × Int)) (h : visitJudge want impl = none) :
+    visitJudgeH his want impl = none := by
+  simp [visitJudgeH, h]
+
 /-- facts about the history that explain a counter mismatch after a reload -/
 structure History where
   emptyPut : Bool := false       -- some put had size ≤ 0
